@@ -5,6 +5,8 @@ import (
 
 	"google.golang.org/grpc/codes"
 	"google.golang.org/grpc/status"
+
+	"github.com/smart-core-os/sc-golang/internal/verifhook"
 )
 
 // Router tracks a registry of gRPC clients.
@@ -100,12 +102,14 @@ func (r *router) Get(name string) (child any, err error) {
 	r.mu.RLock()
 	child, exists := r.registry[name]
 	r.mu.RUnlock()
+	verifhook.At("router.get.afterMiss")
 	if !exists {
 		child, exists, err = invoke(name, r.fallback)
 	}
 	if !exists {
 		child, exists, err = invoke(name, r.factory)
 		if exists {
+			verifhook.At("router.get.beforeInsert")
 			r.mu.Lock()
 			// check again
 			var newChildRemembered bool
